@@ -23,7 +23,7 @@ class C15(Prop):
         quick = [c for c in cfgs if c.get("quick") and not c.get("clock")]
         clock = [c for c in cfgs if c.get("clock") and c.get("tl") == 3]
         if tier == "quick":
-            return (clock[:1] or quick[1:2]) + quick[:1]
+            return (clock[:1] or quick[1:2]) + quick[:1] + [c for c in quick if c.get("c15")][:1]
         return [c for c in cfgs if not c.get("clock")] + clock
 
     def expand(self, task: Dict[str, Any]) -> List[Dict[str, Any]]:
